@@ -1393,3 +1393,7 @@ fn c15_space_cr() {
 fn c15_space_a() {
     space_cases(&["#ax\n#y\nz", "#a\\x\n#y\nz", "#a x\n#y\nz", "#a\nx\n#y\nz", "#a\rx\n#y\nz", "#aax\n#y\nz", "#a\\\\x\n#y\nz", "#a\\ x\n#y\nz", "#a\\\nx\n#y\nz", "#a\\\rx\n#y\nz", "#a\\ax\n#y\nz", "#a \\x\n#y\nz", "#a  x\n#y\nz", "#a \nx\n#y\nz", "#a \rx\n#y\nz", "#a ax\n#y\nz", "#a\n\\x\n#y\nz", "#a\n x\n#y\nz", "#a\n\nx\n#y\nz", "#a\n\rx\n#y\nz", "#a\nax\n#y\nz", "#a\r\\x\n#y\nz", "#a\r x\n#y\nz", "#a\r\nx\n#y\nz", "#a\r\rx\n#y\nz", "#a\rax\n#y\nz", "#aa\\x\n#y\nz", "#aa x\n#y\nz", "#aa\nx\n#y\nz", "#aa\rx\n#y\nz", "#aaax\n#y\nz"]);
 }
+
+// (Point obligations running `Lexer::lex` on short filter texts with a non-ASCII character after
+// each kind of token start - `.é`, `$é`, `"\é"` ... - were built and exceeded 900 s even though
+// the inputs are string literals: collecting the token tree is what does not fit.  Not registered.)
